@@ -149,6 +149,7 @@ class Ctx:
         self.o = o
         self.last_model = None
         self.failed = []        # conc mode: failed labels
+        self.keep = []          # keeps canonical key terms alive (ids must not be reused)
         self.cache = None       # job-level obligation cache: (label, decision prefix) -> record
 
     # ---------------------------------------------------------------- inputs
@@ -933,10 +934,11 @@ def canon(t):
 
 
 def opaque(fn, *args):
-    """Uninterpreted application memoised on the simplified arguments."""
+    """Uninterpreted application memoised on the canonical form of the arguments (the definition keeps the
+    compact, un-expanded form of the first occurrence)."""
     c = Ctx.cur
-    args = tuple(canon(a) for a in args)
-    cv = [const_of(a) for a in args]
+    cargs = tuple(canon(a) for a in args)
+    cv = [const_of(a) for a in cargs]
     if all(v is not None for v in cv):
         try:
             if fn == 'pow':
@@ -946,11 +948,13 @@ def opaque(fn, *args):
             return SV(RV(float(getattr(_np, fn)(float(cv[0])))))
         except (ValueError, OverflowError, ZeroDivisionError) as e:
             raise Realize('%s of constant outside domain: %s' % (fn, e))
-    key = (fn,) + tuple(a.get_id() for a in args)
+    key = (fn,) + tuple(a.get_id() for a in cargs)
     if key not in c.memo:
+        args = tuple(z3.simplify(a) for a in args)
         v = c.newvar(fn)
         c.memo[key] = v
         c.opq[v.decl().name()] = (fn, args, v)
+        c.keep.append(cargs)
         if c.o['auto_fn_domain']:
             a = args[0]
             dom = {'sqrt': lambda: a >= 0, 'log': lambda: a > 0, 'log10': lambda: a > 0, 'arccosh': lambda: a >= 1,
@@ -964,22 +968,24 @@ def opaque(fn, *args):
 
 def sdiv(num, den):
     c = Ctx.cur
-    den = canon(den)
-    cd = const_of(den)
+    cden = canon(den)
+    cd = const_of(cden)
     if cd is not None:
         if cd == 0:
             raise ZeroDivisionError('division by zero')
         return SV(num * RV(1 / cd) if cd != 1 else num, tsize(num, 50) + 2)
-    num = canon(num)
-    if const_of(num) == 0:
+    cnum = canon(num)
+    if const_of(cnum) == 0:
         if c.o['auto_div_domain']:
-            c.pc.append(den != 0)
+            c.pc.append(z3.simplify(den) != 0)
         return SV(z3.RealVal(0))
-    key = ('div', num.get_id(), den.get_id())
+    key = ('div', cnum.get_id(), cden.get_id())
     if key not in c.memo:
+        num, den = z3.simplify(num), z3.simplify(den)
         q = c.newvar('q')
         c.memo[key] = q
         c.divs[q.decl().name()] = (num, den, q)
+        c.keep.append((cnum, cden))
         if c.o['auto_div_domain']:
             c.pc.append(den != 0)
             c.domain.append(den)
